@@ -187,3 +187,25 @@ MODULE_Q = dict(scenario='program', args=dict(policy=stmt_profile([['Block', 'De
 for p in ('C07', 'C12', 'C02'):
     PLANS[p]['quick'] = PLANS[p]['quick'] + [MODULE_Q]
     PLANS[p]['thorough'] = PLANS[p]['thorough'] + [MODULE_Q]
+
+
+# literal collection
+from scenario import LiteralScenario
+
+_prev_make2 = make_scenario
+
+
+def make_scenario(name, args):
+    if name == 'literals':
+        sp = apply_pins(StmtPolicy(**args['policy']), args)
+        sp.free_strings = args.get('free_strings')
+        cfg = ConfigSpec(args.get('config', DEFAULT_CFG), prefix='test', verbosity='Information', literals=True)
+        return LiteralScenario(sp, cfg, kinds=args.get('kinds', ('Script',)), enabled=args.get('enabled', (True,)))
+    return _prev_make2(name, args)
+
+
+LIT_EXPRS = ['Lit', 'Bin', 'Call', 'New', 'Object', 'Ident']
+LITERALS_Q = dict(scenario='literals', args=dict(policy=stmt_profile([['Decl:Var', 'Expr', 'Block', 'Decl:Fn'], ['Decl:Var', 'Expr', 'Return'], ['Expr']], [LIT_EXPRS, ['Lit', 'Ident', 'Call'], ['Lit', 'Ident']], bin_ops=['Add'], names=['require', 'RegExp', 'foo'], props=['k'], max_args=(1, 1, 1, 0), params=(0,), op_budget=2, all_present=True, spread=False),
+                                                 free_strings=(0, 300), enabled=(True, False)),
+                  label='var initialisers / statements / object values / call and new arguments holding string literals of symbolic length 0..300 (callee names in {require, RegExp, foo}), top level, block and function body; collection on and off')
+PLANS['C14'] = {'quick': [LITERALS_Q], 'thorough': [LITERALS_Q]}
